@@ -66,21 +66,39 @@ def run(ctx):
         # seeded random larger pieces and arbitrary intervals
         for _ in range(20000 if ctx.thorough else 2000):
             n = ctx.rng.randint(1, 8)
+            wide = ctx.rng.random() < .3
             notes, t = [], 0
             for _ in range(n):
                 s = t + ctx.rng.choice([0, 2, 4])
                 e = s + ctx.rng.choice([2, 4, 8])
-                notes.append({"ch": 0, "p": ctx.rng.choice([21, 23, 30, 59, 60, 61, 100, 106, 108]) , "s": s, "e": e,
-                              "v": ctx.rng.choice([30, 80, 127])})
+                pool = [21, 23, 30, 59, 60, 61, 100, 106, 108]
+                if wide:   # legal MIDI pitches outside the playable range: the source itself may have to be moved by octaves
+                    pool = pool + [0, 5, 16, 20, 109, 115, 127]
+                notes.append({"ch": 0, "p": ctx.rng.choice(pool), "s": s, "e": e, "v": ctx.rng.choice([30, 80, 127])})
                 t = e
             # distinct pitches may overlap in time, equal pitches never do (sequential construction)
-            sc = {"notes": notes, "extras": [P.ks(0, ctx.rng.choice([k.value for k in Key]))] if ctx.rng.random() < .6 else [],
-                  "dur": min(96, t)}
+            keys = [k.value for k in Key]
+            r = ctx.rng.random()
+            iv = ctx.rng.randint(-130, 130) if not wide else ctx.rng.choice([0, 1, -1, 2, -3, 5, 12, -12, 30, -30])
+            if r < .45:
+                extras = [P.ks(0, ctx.rng.choice(keys))]
+            elif r < .7 and t > 4:
+                # a modulation: several key signatures, the interval of the call often the one between two of them
+                k1 = Key(ctx.rng.choice(keys))
+                step = ctx.rng.choice([1, 2, -2, 5, 7, -5, 3])
+                k2 = Key.transpose_key(k1, step)
+                extras = [P.ks(0, k1.value), P.ks(ctx.rng.choice([2, 4, t]), k2.value)]
+                if ctx.rng.random() < .4:
+                    extras.append(P.ks(t, Key.transpose_key(k2, step).value))
+                if ctx.rng.random() < .7:
+                    iv = ctx.rng.choice([step, -step, step + 12, 2 * step])
+            else:
+                extras = []
+            sc = {"notes": notes, "extras": extras, "dur": min(96, t)}
             if t > 96:
                 continue
             kind = ctx.rng.choice(["seq", "bar"])
-            cases.append((len(cases), kind, sc, ctx.rng.randint(-130, 130),
-                          ctx.rng.choice(BAR_KEYS) if kind == "bar" else None))
+            cases.append((len(cases), kind, sc, iv, ctx.rng.choice(BAR_KEYS) if kind == "bar" else None))
     if ctx.fixtures and not ctx.replay:
         from harness import fixtures
         for sc in fixtures.slices("quantised"):
